@@ -46,47 +46,43 @@ ENC_CHAR_CONTRACT(SPEC_UNRESERVED)
 ;
 
 
-/* ---- ghost bookkeeping for the encoder loop (DESIGN 4.3/4.6): the per-byte function as the LOOP sees it.
- * g_ecnt counts the calls; for ONE arbitrary call number g_ei the contract records the byte that was passed (g_eval),
- * where its encoding starts (g_epos) and where the encoding of the next byte starts (g_epos2).  The text is the pure
- * contract above plus the recording; unit *_char_ghost checks it against "real function + recording statements". */
-size_t g_ei, g_ecnt, g_epos, g_enext, g_epos2;
-uint8_t g_eval;
-bool g_ekept;
-#define ENC_CHAR_GHOST_CONTRACT(KEEP)                                                                                  \
-    ENC_CHAR_CONTRACT(KEEP)                                                                                            \
-    __CPROVER_assigns(g_ecnt)                                                                                          \
-    __CPROVER_assigns(g_ecnt == g_ei : g_epos, g_eval, g_enext, g_ekept)                                                                 \
-    __CPROVER_assigns(g_ecnt == g_ei + 1 : g_epos2)                                                                    \
-    __CPROVER_ensures(g_ecnt == OLD(g_ecnt) + 1)                                                                       \
-    __CPROVER_ensures(OLD(g_ecnt) == g_ei ==> g_epos == OLD(buffer->len) && g_eval == value &&                         \
-                      g_enext == buffer->len && g_ekept == KEEP(value))                                                \
-    __CPROVER_ensures(OLD(g_ecnt) == g_ei + 1 ==> g_epos2 == OLD(buffer->len))
-void enc_path_char_ghost(struct aws_byte_buf *buffer, uint8_t value)
-ENC_CHAR_GHOST_CONTRACT(SPEC_PATH_KEEP)
-;
-void enc_param_char_ghost(struct aws_byte_buf *buffer, uint8_t value)
-ENC_CHAR_GHOST_CONTRACT(SPEC_UNRESERVED)
-;
+/* ---- ghost bookkeeping for the encoder loop (DESIGN 4.3).  The proof TU wraps the per-byte call inside
+ * s_encode_cursor_to_buffer with two recording functions (ghost code: they only write g_e):
+ *   g_e.cnt counts the calls; for ONE arbitrary call number g_e.i they record the byte that was passed (val), where its
+ *   encoding starts (pos) and ends (next), whether it was kept as is (kept), and where the encoding of the following byte
+ *   starts (pos2). */
+struct enc_ghost { size_t i, cnt, pos, next, pos2; uint8_t val; bool kept; } g_e;
+static inline void enc_ghost_pre(const struct aws_byte_buf *b, uint8_t v) {
+    if (g_e.cnt == g_e.i) { g_e.pos = b->len; g_e.val = v; }
+    if (g_e.cnt == g_e.i + 1) { g_e.pos2 = b->len; }
+}
+static inline void enc_ghost_post(const struct aws_byte_buf *b) {
+    if (g_e.cnt == g_e.i) { g_e.next = b->len; g_e.kept = (g_e.next == g_e.pos + 1); }
+    g_e.cnt++;
+}
+#define ENC_GHOST_HOOK(fn, b, v) (enc_ghost_pre((b), (v)), (fn)((b), (v)), enc_ghost_post(b))
 
-/* ---- the two public encoders.  Complete functional specification, by induction over the witness g_ei:
+/* ---- the two public encoders.  Complete functional specification, by induction over the witness g_e.i:
  *   the encoding of input byte 0 starts at the old length; the encoding of byte i+1 starts where that of byte i ends;
- *   the new length is where the encoding of the last byte ends; the encoding of byte i is SPEC(in[i]). */
+ *   the new length is where the encoding of the last byte ends; the encoding of byte i is SPEC(in[i]); bytes below the old
+ *   length are untouched.  All statements about output bytes go through ONE arbitrary output index g_k (every distinct
+ *   symbolic index into storage of symbolic size multiplies the cost of the proof). */
+#define SPEC_ENC_BYTE(val, kept, sub) ((uint8_t)((kept) ? (val) : ((sub) == 0 ? '%' : ((sub) == 1 ? SPEC_HEXU((val) >> 4) : SPEC_HEXU((val)&0x0F)))))
 #define ENC_OK(c, b) ((c)->len <= SIZE_MAX / 3 && 3 * (c)->len <= SIZE_MAX - (b)->len)
 #define ENC_OK_OLD(c, b) ((c)->len <= SIZE_MAX / 3 && 3 * (c)->len <= SIZE_MAX - OLD((b)->len))
 #define ENC_GROWS(c, b) ((b)->len + 3 * (c)->len > (b)->capacity)
 #define ENCODE_CONTRACT(KEEP)                                                                                          \
     __CPROVER_requires(BUF_OK(buffer) && buffer->allocator != NULL)                                                    \
-    __CPROVER_requires(CUR_OK_OR_HUGE(cursor))                                                                         \
+    __CPROVER_requires(ENC_CURSOR_REQ(cursor))                                                                         \
     REQ_WITNESS_BUF(buffer)                                                                                            \
-    __CPROVER_requires(g_ecnt == 0)                                                                                    \
-    __CPROVER_assigns(ENC_OK(cursor, buffer) : buffer->len, buffer->buffer, buffer->capacity)                          \
+    __CPROVER_requires(g_e.cnt == 0)                                                                                   \
+    __CPROVER_assigns(ENC_OK(cursor, buffer) : *buffer)                                                                \
     __CPROVER_assigns(ENC_OK(cursor, buffer) && !ENC_GROWS(cursor, buffer) && cursor->len > 0 :                        \
                       __CPROVER_object_upto(buffer->buffer + buffer->len, 3 * cursor->len))                            \
     __CPROVER_assigns(ENC_OK(cursor, buffer) && ENC_GROWS(cursor, buffer) && buffer->capacity > 0 :                    \
                       __CPROVER_object_upto(buffer->buffer, buffer->capacity))                                         \
     __CPROVER_frees(ENC_OK(cursor, buffer) && ENC_GROWS(cursor, buffer) : buffer->buffer)                              \
-    __CPROVER_assigns(g_ecnt, g_epos, g_eval, g_enext, g_ekept, g_epos2)                                               \
+    __CPROVER_assigns(g_e)                                                                                             \
     __CPROVER_ensures(RET == AWS_OP_SUCCESS || RET == AWS_OP_ERR)                                                      \
     __CPROVER_ensures((RET == AWS_OP_SUCCESS) == ENC_OK_OLD(cursor, buffer))                                           \
     __CPROVER_ensures(buffer->allocator == OLD(buffer->allocator) && buffer->len <= buffer->capacity)                  \
@@ -97,17 +93,23 @@ ENC_CHAR_GHOST_CONTRACT(SPEC_UNRESERVED)
     __CPROVER_ensures(RET == AWS_OP_SUCCESS ==> buffer->len >= OLD(buffer->len) + cursor->len &&                       \
                       buffer->len <= OLD(buffer->len) + 3 * cursor->len)                                               \
     __CPROVER_ensures(RET == AWS_OP_SUCCESS && cursor->len == 0 ==> buffer->len == OLD(buffer->len))                   \
-    __CPROVER_ensures(RET == AWS_OP_SUCCESS && g_ei < cursor->len ==>                                                  \
-                      g_eval == cursor->ptr[g_ei] && g_ekept == KEEP(g_eval) &&                                        \
-                      g_epos >= OLD(buffer->len) + g_ei && g_enext == g_epos + (g_ekept ? 1 : 3) && g_enext <= buffer->len && \
-                      (g_ekept ? buffer->buffer[g_epos] == g_eval                                                      \
-                               : buffer->buffer[g_epos] == '%' && buffer->buffer[g_epos + 1] == SPEC_HEXU(g_eval >> 4) && \
-                                 buffer->buffer[g_epos + 2] == SPEC_HEXU(g_eval & 0x0F)))                              \
-    __CPROVER_ensures(RET == AWS_OP_SUCCESS && g_ei == 0 && cursor->len > 0 ==> g_epos == OLD(buffer->len))            \
-    __CPROVER_ensures(RET == AWS_OP_SUCCESS && g_ei < cursor->len && g_ei + 1 < cursor->len ==> g_epos2 == g_enext)    \
-    __CPROVER_ensures(RET == AWS_OP_SUCCESS && g_ei < cursor->len && g_ei + 1 == cursor->len ==> buffer->len == g_enext) \
-    __CPROVER_ensures(g_on && RET == AWS_OP_SUCCESS && g_k < OLD(buffer->len) ==> buffer->buffer[g_k] == g_old)
+    __CPROVER_ensures(RET == AWS_OP_SUCCESS && g_e.i < cursor->len ==>                                                 \
+                      g_e.val == cursor->ptr[g_e.i] && g_e.kept == KEEP(g_e.val) && g_e.pos >= OLD(buffer->len) + g_e.i && \
+                      g_e.next == g_e.pos + (g_e.kept ? 1 : 3) && g_e.next <= buffer->len)                             \
+    __CPROVER_ensures(RET == AWS_OP_SUCCESS && g_e.i == 0 && cursor->len > 0 ==> g_e.pos == OLD(buffer->len))          \
+    __CPROVER_ensures(RET == AWS_OP_SUCCESS && g_e.i < cursor->len && g_e.i + 1 < cursor->len ==> g_e.pos2 == g_e.next) \
+    __CPROVER_ensures(RET == AWS_OP_SUCCESS && g_e.i < cursor->len && g_e.i + 1 == cursor->len ==> buffer->len == g_e.next) \
+    __CPROVER_ensures(g_on && RET == AWS_OP_SUCCESS && g_k < buffer->len ==>                                           \
+                      (g_k < OLD(buffer->len) ? buffer->buffer[g_k] == g_old                                           \
+                       : (g_e.i < cursor->len && g_k >= g_e.pos && g_k < g_e.next ==>                                  \
+                          buffer->buffer[g_k] == SPEC_ENC_BYTE(g_e.val, g_e.kept, g_k - g_e.pos))))
 
+#ifndef ENC_CURSOR_REQ
+/* the NULL/0 view makes the loop compare two null pointers with '<' (formally undefined, flagged by CBMC's pointer checks
+ * although nothing is dereferenced; every later obligation on that path is then reported UNKNOWN): that single input is
+ * exercised natively (unit native_roundtrips) */
+#define ENC_CURSOR_REQ(c) (__CPROVER_is_fresh((c), sizeof(*(c))) && __CPROVER_is_fresh((c)->ptr, (c)->len))
+#endif
 int aws_byte_buf_append_encoding_uri_path(struct aws_byte_buf *buffer, const struct aws_byte_cursor *cursor)
 ENCODE_CONTRACT(SPEC_PATH_KEEP)
 ;
@@ -115,16 +117,27 @@ int aws_byte_buf_append_encoding_uri_param(struct aws_byte_buf *buffer, const st
 ENCODE_CONTRACT(SPEC_UNRESERVED)
 ;
 
-#define ENC_GHOST_RECORD(buffer, value, CALL)                                                                          \
-    do {                                                                                                               \
-        bool rec_ = g_ecnt == g_ei;                                                                                    \
-        if (rec_) { g_epos = (buffer)->len; g_eval = (value); }                                                        \
-        if (g_ecnt == g_ei + 1) { g_epos2 = (buffer)->len; }                                                           \
-        g_ecnt++;                                                                                                      \
-        CALL;                                                                                                          \
-        if (rec_) { g_enext = (buffer)->len; g_ekept = g_enext == g_epos + 1; }                                        \
-    } while (0)
-
+/* ---- percent decoder.  For every input (well-formed or not): memory safety, termination, at most one output byte per
+ * input byte, bytes below the old length untouched, result in {SUCCESS, ERR}.  WHAT is decoded (and that exactly the
+ * malformed escapes are refused) is checked against a reference decoder in the bounded unit decode_bounded: the loop
+ * reads through a cursor that the loop contract havocs, and CBMC 6.11 does not carry contents through a havocked pointer. */
+#define DEC_OK(c, b) ((c)->len <= SIZE_MAX - (b)->len)
+#define DEC_GROWS(c, b) ((b)->len + (c)->len > (b)->capacity)
+int aws_byte_buf_append_decoding_uri(struct aws_byte_buf *buffer, const struct aws_byte_cursor *cursor)
+__CPROVER_requires(BUF_OK(buffer) && buffer->allocator != NULL)
+__CPROVER_requires(CUR_OK(cursor))
+REQ_WITNESS_BUF(buffer)
+__CPROVER_assigns(DEC_OK(cursor, buffer) : *buffer)
+__CPROVER_assigns(DEC_OK(cursor, buffer) && !DEC_GROWS(cursor, buffer) && cursor->len > 0 : __CPROVER_object_upto(buffer->buffer + buffer->len, cursor->len))
+__CPROVER_assigns(DEC_OK(cursor, buffer) && DEC_GROWS(cursor, buffer) && buffer->capacity > 0 : __CPROVER_object_upto(buffer->buffer, buffer->capacity))
+__CPROVER_frees(DEC_OK(cursor, buffer) && DEC_GROWS(cursor, buffer) : buffer->buffer)
+__CPROVER_ensures(RET == AWS_OP_SUCCESS || RET == AWS_OP_ERR)
+__CPROVER_ensures(buffer->allocator == OLD(buffer->allocator) && buffer->len <= buffer->capacity && buffer->capacity >= OLD(buffer->capacity))
+__CPROVER_ensures(buffer->len >= OLD(buffer->len) && buffer->len - OLD(buffer->len) <= cursor->len)
+__CPROVER_ensures(cursor->len > SIZE_MAX - OLD(buffer->len) ==> RET == AWS_OP_ERR && buffer->len == OLD(buffer->len) &&
+                  buffer->capacity == OLD(buffer->capacity) && buffer->buffer == OLD(buffer->buffer))
+__CPROVER_ensures(g_on && g_k < OLD(buffer->len) ==> buffer->buffer[g_k] == g_old)
+;
 
 /* ================================================================== ghost log of the delimiter searches (parser units)
  * ASSUMED model of libc memchr (glibc's memchr is not examined; CBMC's library model is an unbounded loop): straight-line
